@@ -186,6 +186,30 @@ def oracle(ctx, hints, effort):
         if r is not None:
             findings.setdefault("passive:split:thin", Finding("passive:split:thin", f"splitting a 1 mm crust {splits} changes the result by {r[0]:.3g}",
                                                               {"scene": sc, "active": False, "splits": splits}, r[0], r[1]))
+    # the bottom layer cut with a transparent interface under a flat surface, seen by a radar (the air-snow boundary is the first interface,
+    # whatever lies between the layers below); and the same stack with the equally spaced stream option of the solver
+    for it in range(2 if effort == "routine" else 6):
+        sc = scenes.random_scene(rng, nlayer=2 + it % 2, lossless=False, microstructure="exponential", atmosphere=False, substrate="flat",
+                                 frequency=float(rng.choice([13e9, 17e9])), active=True, thick=(0.1, 1.0))
+        sc["emmodel"], sc["nmax"] = "iba", 16
+        nl_ = len(sc["thickness"])
+        splits = [(nl_ - 1, round(float(rng.uniform(0.2, 0.8)), 3), "transparent")]
+        for active_, extra_ in ((True, {}), (False, dict(solver_options=dict(stream_mode="uniform_air")))):
+            sc_ = dict(sc, **extra_)
+            try:
+                evals += 2
+                r = check_split(sc_, active_, splits)
+            except (AssertionError, Warning):
+                continue
+            except Exception as e:  # noqa
+                from smrt.core.error import SMRTError
+                if isinstance(e, SMRTError):
+                    continue
+                raise
+            if r is not None:
+                key = ("active:split:bottom-transparent" if active_ else "passive:split:uniform-streams")
+                findings.setdefault(key, Finding(key, f"cutting the bottom layer {splits} " + ("seen by a radar" if active_ else "with stream_mode='uniform_air'")
+                                                 + f" changes the result by {r[0]:.3g}", {"scene": sc_, "active": active_, "splits": splits}, r[0], r[1]))
     # hardly scattering layers at L band cut into ever thinner slices: a slice scatters as much per metre as the layer it came from
     for it in range(1 if effort == "routine" else 4):
         sc = scenes.random_scene(rng, nlayer=3, lossless=False, microstructure="exponential", atmosphere=False, substrate="flat", frequency=1.4e9)
